@@ -75,51 +75,60 @@ with abs_val (v : value) : sval :=
 (* [lim] is the remaining nesting budget: a Grouped AVP may be entered only when lim > 0.
    The cursor is the list of octets not yet read; Cursor::seek past the end saturates
    (a later read fails either way). *)
-Fixpoint dec_avp (f : nat) (lim : nat) (d : dict) (r : list byte) {struct f}
-  : outcome (avp * list byte) :=
-  match f with
-  | O => OutOfFuel
-  | S f' =>
-    match r with
-    | b0 :: b1 :: b2 :: b3 :: fl :: l0 :: l1 :: l2 :: r1 =>
+(* AvpHeader::decode_from: code, M, P, length, vendor id, cursor after the header *)
+Definition dec_header (r : list byte) : option (N * bool * bool * N * option N * list byte) :=
+  match r with
+  | b0 :: b1 :: b2 :: b3 :: fl :: l0 :: l1 :: l2 :: r1 =>
       let code := un_be [b0; b1; b2; b3] in
       let len := un_be [l0; l1; l2] in
       let flv := Byte.to_N fl in
       let vflag := 128 <=? flv in
       let mflag := 64 <=? flv mod 128 in
       let pflag := 32 <=? flv mod 64 in
-      match (if vflag
-             then match r1 with
-                  | v0 :: v1 :: v2 :: v3 :: r2 => Some (Some (un_be [v0; v1; v2; v3]), r2)
-                  | _ => None end
-             else Some (None, r1)) with
+      if vflag then
+        match r1 with
+        | v0 :: v1 :: v2 :: v3 :: r2 => Some (code, mflag, pflag, len, Some (un_be [v0; v1; v2; v3]), r2)
+        | _ => None
+        end
+      else Some (code, mflag, pflag, len, None, r1)
+  | _ => None
+  end.
+
+Fixpoint dec_avp (f : nat) (lim : nat) (d : dict) (r : list byte) {struct f}
+  : outcome (avp * list byte) :=
+  match f with
+  | O => OutOfFuel
+  | S f' =>
+    match dec_header r with
+    | None => Err
+    | Some (code, mflag, pflag, len, vd, r2) =>
+      let hl := hdr vd in
+      if len <? hl then Err else        (* checked_sub: repair of D2 *)
+      let vl := len - hl in
+      let fin (v : value) (r3 : list byte) :=
+          Ok (MkAvp code vd mflag pflag len (pad4 vl) v, skipn (N.to_nat (pad4 vl)) r3) in
+      match d code vd with
       | None => Err
-      | Some (vd, r2) =>
-        let hl := hdr vd in
-        if len <? hl then Err else        (* checked_sub: repair of D2 *)
-        let vl := len - hl in
-        let fin (v : value) (r3 : list byte) :=
-            Ok (MkAvp code vd mflag pflag len (pad4 vl) v, skipn (N.to_nat (pad4 vl)) r3) in
-        match d code vd with
-        | None => Err
-        | Some TUnknown => Err
-        | Some TGrouped =>
-            match lim with
-            | O => Err                     (* nesting limit: repair of D3 *)
-            | S lim' =>
-              match dec_members f' lim' d vl 0 r2 with
-              | Ok (l, r3) => fin (VGrp l) r3
-              | Err => Err | Panic => Panic | OutOfFuel => OutOfFuel
-              end
-            end
-        | Some t =>
+      | Some t =>
+          if is_leaf_ty t then
             match dec_leaf t vl r2 with
             | Some (l, r3) => fin (VLeaf l) r3
             | None => Err
             end
-        end
+          else
+            match t with
+            | TGrouped =>
+                match lim with
+                | O => Err                     (* nesting limit: repair of D3 *)
+                | S lim' =>
+                  match dec_members f' lim' d vl 0 r2 with
+                  | Ok (l, r3) => fin (VGrp l) r3
+                  | Err => Err | Panic => Panic | OutOfFuel => OutOfFuel
+                  end
+                end
+            | _ => Err                         (* AvpType::Unknown *)
+            end
       end
-    | _ => Err
     end
   end
 with dec_members (f : nat) (lim : nat) (d : dict) (len off : N) (r : list byte) {struct f}
